@@ -119,7 +119,7 @@ class Frame:
         return s.loc[i]
 
 class State:
-    def __init__(s): s.frames=[]; s.pc=[]; s.result=None; s.trace=[]; s.depth={}
+    def __init__(s): s.frames=[]; s.pc=[]; s.result=None; s.trace=[]; s.depth={}; s.model=None
     def clone(s):
         memo={}
         # z3 refs are immutable: share them
@@ -131,7 +131,7 @@ class _Z3Memo(dict):
     pass
 # make z3 objects deepcopy-shared
 def _share(self,memo): return self
-for cls in (z3.ExprRef,z3.BoolRef,z3.BitVecRef,z3.FPRef,z3.ArithRef,z3.FPNumRef,z3.BitVecNumRef,z3.SortRef,z3.FuncDeclRef,z3.FPRMRef,z3.ArrayRef):
+for cls in (z3.ModelRef,z3.ExprRef,z3.BoolRef,z3.BitVecRef,z3.FPRef,z3.ArithRef,z3.FPNumRef,z3.BitVecNumRef,z3.SortRef,z3.FuncDeclRef,z3.FPRMRef,z3.ArrayRef):
     cls.__deepcopy__=_share
 class Fnshare: pass
 
@@ -143,10 +143,21 @@ class Machine:
         s.stats={'stmts':0,'paths':0,'forks':0}; s.verbose=False
     # ---------------- solver
     qtimeout=600
-    def feasible(s,pc,extra):
+    cache_hits=0
+    last_model=None
+    def feasible(s,pc,extra,st=None):
+        # counterexample caching: the model that witnessed this path's feasibility so far often decides the new condition too
+        mdl=getattr(st,'model',None) if st is not None else None
+        if mdl is not None and getattr(st,'model_len',-1)==len(st.pc):
+            try:
+                if z3.is_true(mdl.eval(extra,model_completion=True)):
+                    s.cache_hits+=1; s.last_model=mdl; return True
+            except z3.Z3Exception:
+                pass
         t=time.time(); sv=z3.Solver(); sv.set('timeout',int(s.qtimeout*1000)); sv.add(*pc); sv.add(extra); r=sv.check(); s.nq+=1; s.qtime+=time.time()-t
         if s.verbose: print('  query',s.nq,r,round(time.time()-t,2),flush=True)
         if r==z3.unknown: raise Unsupported(f'solver unknown on a feasibility query after {time.time()-t:.0f}s')
+        s.last_model=sv.model() if r==z3.sat else None
         return r==z3.sat
     # ---------------- places
     def parse_place(s,t):
@@ -553,11 +564,12 @@ def run(M,st0,limit=10**10,on_call=None):
                     if act[0]=='call':
                         nf=Frame(act[1],act[2],None,None); st.frames.append(nf); continue
                     if act[0]=='branch':
-                        cnd=act[1]; ft=M.feasible(st.pc,cnd); ff=M.feasible(st.pc,z3.Not(cnd))
+                        cnd=act[1]; ft=M.feasible(st.pc,cnd,st); mt=M.last_model
+                        ff=M.feasible(st.pc,z3.Not(cnd),st); mf=M.last_model
                         if ft and ff:
-                            n=st.clone(); n.pc.append(z3.Not(cnd)); n.frames[-1].taken=False; work.append(n); M.stats['forks']+=1
-                        if ft: st.pc.append(cnd); fr.taken=True
-                        elif ff: st.pc.append(z3.Not(cnd)); fr.taken=False
+                            n=st.clone(); n.pc.append(z3.Not(cnd)); n.model=mf; n.model_len=len(n.pc); n.frames[-1].taken=False; work.append(n); M.stats['forks']+=1
+                        if ft: st.pc.append(cnd); st.model=mt; st.model_len=len(st.pc); fr.taken=True
+                        elif ff: st.pc.append(z3.Not(cnd)); st.model=mf; st.model_len=len(st.pc); fr.taken=False
                         else: raise PathEnd()
                         continue
                     rv=act[1]; st.frames.pop(); caller=st.frames[-1]
@@ -618,17 +630,20 @@ def run(M,st0,limit=10**10,on_call=None):
                         # multiway switch: one incremental solver for all targets (pure bit-vector conditions in practice)
                         t0=time.time(); sv=z3.Solver(); sv.set('timeout',int(M.qtimeout*1000)); sv.add(*st.pc); feas=[]
                         for c,b in conds:
-                            sv.push(); sv.add(c); r_=sv.check(); sv.pop(); M.nq+=1
+                            sv.push(); sv.add(c); r_=sv.check(); M.nq+=1
                             if r_==z3.unknown: raise Unsupported('solver unknown on a switch target')
-                            if r_==z3.sat: feas.append((c,b))
+                            if r_==z3.sat: feas.append((c,b,sv.model()))
+                            sv.pop()
                         M.qtime+=time.time()-t0
                     else:
-                        feas=[(c,b) for c,b in conds if M.feasible(st.pc,c)]
+                        feas=[]
+                        for c,b in conds:
+                            if M.feasible(st.pc,c,st): feas.append((c,b,M.last_model))
                     if not feas: raise PathEnd()
                     M.stats['forks']+=len(feas)-1
-                    for c,b in feas[1:]:
-                        n=st.clone(); n.pc.append(c); n.frames[-1].bb=b; n.frames[-1].ip=0; work.append(n)
-                    st.pc.append(feas[0][0]); fr.bb=feas[0][1]; fr.ip=0; continue
+                    for c,b,md in feas[1:]:
+                        n=st.clone(); n.pc.append(c); n.model=md; n.model_len=len(n.pc); n.frames[-1].bb=b; n.frames[-1].ip=0; work.append(n)
+                    st.pc.append(feas[0][0]); st.model=feas[0][2]; st.model_len=len(st.pc); fr.bb=feas[0][1]; fr.ip=0; continue
                 m=re.match(r'^assert\((!?)(.*?), "(.*)\) -> \[success: bb(\d+).*\]$',s)
                 if m:
                     neg=m.group(1)=='!'; cond_t=m.group(2); msg=m.group(3).split('"')[0]
@@ -636,10 +651,10 @@ def run(M,st0,limit=10**10,on_call=None):
                     ok=z3.simplify(ok)
                     if z3.is_true(ok): fr.bb=int(m.group(4)); fr.ip=0; continue
                     if z3.is_false(ok) : raise Panic(msg)
-                    if M.feasible(st.pc,z3.Not(ok)):
-                        n=st.clone(); n.pc.append(z3.Not(ok)); n.result=('PANIC',msg,fr.fn.name); done.append(n)
-                        if not M.feasible(st.pc,ok): raise PathEnd()
-                        st.pc.append(ok)
+                    if M.feasible(st.pc,z3.Not(ok),st):
+                        n=st.clone(); n.pc.append(z3.Not(ok)); n.model=M.last_model; n.model_len=len(n.pc); n.result=('PANIC',msg,fr.fn.name); done.append(n)
+                        if not M.feasible(st.pc,ok,st): raise PathEnd()
+                        st.pc.append(ok); st.model=M.last_model; st.model_len=len(st.pc)
                     # else: the assertion cannot fail on this (feasible) path, so success is feasible and adds no information
                     fr.bb=int(m.group(4)); fr.ip=0; continue
                 m=re.match(r'^drop\(.*\) -> \[return: bb(\d+).*\]$',s)
@@ -670,13 +685,15 @@ def run(M,st0,limit=10**10,on_call=None):
                 if isinstance(res,Redirect):
                     nf=Frame(res.f,res.args,destp,retbb); nf.post=res.post; st.frames.append(nf); continue
                 if isinstance(res,Forks):
-                    alts=[(c,v) for c,v in res.alts if M.feasible(st.pc,c)]
+                    alts=[]
+                    for c,v in res.alts:
+                        if M.feasible(st.pc,c,st): alts.append((c,v,M.last_model))
                     if not alts: raise PathEnd()
-                    for c,v in alts[1:]:
-                        n=st.clone(); n.pc.append(c); nfr=n.frames[-1]
+                    for c,v,md in alts[1:]:
+                        n=st.clone(); n.pc.append(c); n.model=md; n.model_len=len(n.pc); nfr=n.frames[-1]
                         if isinstance(v,Panic): n.result=('PANIC',v.msg,callee); done.append(n); continue
                         cc,pa=M.resolve(nfr,destp); setp(cc,pa,copy.deepcopy(v)); nfr.bb=retbb; nfr.ip=0; work.append(n)
-                    c,v=alts[0]; st.pc.append(c)
+                    c,v,md=alts[0]; st.pc.append(c); st.model=md; st.model_len=len(st.pc)
                     if isinstance(v,Panic): raise v
                     res=v
                 cc,pa=M.resolve(fr,destp); setp(cc,pa,res); fr.bb=retbb; fr.ip=0
